@@ -19,6 +19,8 @@ DECIDED_MORE = ('Also: separators are searched in still-escaped text; the promot
 DECIDED = DECIDED + ' ' + DECIDED_MORE
 DECIDED_R6 = ('Round 6: every memo key of the parsed query is dropped by the QUERY_STRING listener; a field is skipped only for an empty name; split/partition form of the scanner; operations in neither catalogue are undecided.')
 DECIDED = DECIDED + ' ' + DECIDED_R6
+DECIDED_R7 = ('Round 7: the container keeps the list object it is given; every environ store (also of a new key) is followed by the change event.')
+DECIDED = DECIDED + ' ' + DECIDED_R7
 NOT_DECIDED = ('encode -> parse equality for all pair lists (urllib.parse.unquote semantics); UTF-8 decoding of escapes is '
                'urllib behaviour.')
 ASSUMPTIONS = ["urllib.parse.unquote(s) with default errors='replace' raises nothing",
